@@ -51,7 +51,28 @@ TRI = dict(
     skip_if_refs=["logDEBUG", "logERROR", "logWARNING", "logINFO"],
 )
 
-JOBS = {"geometry": GEOMETRY, "makepath": MAKEPATH, "sepdir": SEPDIR, "tri": TRI}
+_TF = ["rotate90cw", "rotate90acw", "rotate180", "flipv", "fliph", "flipmd", "flipod"]
+SEPPAIR = dict(
+    src="cola/libdialect/constraints.cpp",
+    ns="AdaptaVerif.Gen.SepPair",
+    out="lean/AdaptaVerif/Gen/SepPair.lean",
+    imports=["AdaptaVerif.Model.Sep"],
+    opens=["AdaptaVerif.Model.Sep (SepTransform SepType GapType)", "AdaptaVerif.Num (SZ)"],
+    functions=["transform"],
+    filters={"transform": "SepPair::transform"},
+    types={"SepTransform": "SepTransform", "SepType": "SepType", "GapType": "GapType", "double": "SZ"},
+    enums={"ROTATE90CW": ("SepTransform.rotate90cw", "SepTransform"), "ROTATE90ACW": ("SepTransform.rotate90acw", "SepTransform"),
+           "ROTATE180": ("SepTransform.rotate180", "SepTransform"), "FLIPV": ("SepTransform.flipv", "SepTransform"),
+           "FLIPH": ("SepTransform.fliph", "SepTransform"), "FLIPMD": ("SepTransform.flipmd", "SepTransform"),
+           "FLIPOD": ("SepTransform.flipod", "SepTransform")},
+    # the model has an extra constructor `ident` (no C++ counterpart): the switch is not exhaustive in Lean
+    enum_ctors={"SepTransform": ["SepTransform.ident"] + ["SepTransform." + n for n in _TF]},
+    # members of SepPair that transform() reads and writes: inputs and results of the generated function
+    state_members={"transform": [("xst", "xst", "SepType"), ("yst", "yst", "SepType"), ("xgt", "xgt", "GapType"),
+                                 ("ygt", "ygt", "GapType"), ("xgap", "xgap", "SZ"), ("ygap", "ygap", "SZ")]},
+)
+
+JOBS = {"geometry": GEOMETRY, "makepath": MAKEPATH, "sepdir": SEPDIR, "tri": TRI, "seppair": SEPPAIR}
 
 def regenerate(names, ROOT, REPO):
     info = {}
